@@ -50,28 +50,45 @@ def correspondence_name(prop):
 
 def theorems(prop):
     return [
+        # A. case-insensitive equality of the model = strcasecmp on C strings
         "Iauthd.Log.ciEq_eq_strcasecmp",
-        "Iauthd.Log.sevset_spec",
+        # B. log_parse_type_sevset against the specification's grammar
         "Iauthd.Log.applyOp_spec",
+        "Iauthd.Log.sevset_spec",
         "Iauthd.Log.parseKey_spec",
+        # C. log_rescan_conf
         "Iauthd.Log.wf_rescan",
         "Iauthd.Log.refcnt_spec",
         "Iauthd.Log.open_iff_referenced",
+        "Iauthd.Log.open_exact",
         "Iauthd.Log.C18_route",
-        "Iauthd.Log.C18_route_exact",
+        "Iauthd.Log.dests_exact",
         "Iauthd.Log.rescan_history_free",
-        "Iauthd.Log.rescan_history_free_exact",
-        "Iauthd.Log.line_complete",
-        "Iauthd.Log.rescanR_state",
-        "Iauthd.Log.rescanR_alive_of_openable",
-        "Iauthd.Log.console_silent",
-        "Iauthd.Log.load_routing",
-        "Iauthd.Log.sound_of_reach",
+        # the snapshot-647fb5c comparator (strcasecmp on destination names), kept for the record
         "Iauthd.Log.alias_same_section_witness",
         "Iauthd.Log.alias_history_witness",
+        # D. the effectful walk; F25
+        "Iauthd.Log.rescanR_state",
+        "Iauthd.Log.rescanR_alive_of_openable",
+        # E. lines, console
+        "Iauthd.Log.line_complete",
+        "Iauthd.Log.console_silent",
+        # hook delivery (conf_replace_value on `logs`)
+        "Iauthd.Log.load_routing",
+        "Iauthd.Log.sound_of_reach",
+        "Iauthd.Log.load_alive",
+        "Iauthd.Log.alive_of_reachOK",
+        # from the file to the tree
+        "Iauthd.Log.keyDenotes_congr",
+        "Iauthd.Log.walk_live",
+        "Iauthd.Log.scratch_routes",
+        "Iauthd.Log.reachS_routes",
+        # headline statements
         "Iauthd.Properties.C18",
-        "Iauthd.Properties.C18_exact",
         "Iauthd.Properties.C18_reload",
+        "Iauthd.Properties.C18_reload_F25",
+        "Iauthd.Properties.C18_history",
+        "Iauthd.Properties.C18_multiset",
         "Iauthd.Properties.C18_lines",
     ]
 
@@ -85,7 +102,8 @@ def lean_targets(prop):
 
 
 def lean_modules(prop):
-    return ["Iauthd.Log.Model", "Iauthd.Log.Spec", "Iauthd.Log.Proofs", "Iauthd.Log.ProofsLoad", "Iauthd.Properties.C18"]
+    return ["Iauthd.Log.Model", "Iauthd.Log.Spec", "Iauthd.Log.Proofs", "Iauthd.Log.ProofsLoad", "Iauthd.Log.ProofsFile",
+            "Iauthd.Properties.C18"]
 
 
 def checker_cmd(prop):
@@ -98,7 +116,7 @@ def trusted_base(prop):
             "Iauthd/Log/Spec.lean is our reading of C18 (interpretation choices listed in its header and in `assumptions`)",
             "the small config parser of Drv/LogMain.lean (only the layout the generators emit; anything else is answered `unsupported`)",
             "harness/h_log.c (log.c compiled with -D_exit=h_log_exit: LOG_FATAL returns to the harness; timestamps stripped by pattern), vlib/eng_logeng.py judge (filters the rescan's own messages, compares facility names without case, ignores repeated copies), gcc + ASan/UBSan",
-            "struct set is represented as an association list looked up with strcasecmp (licensed by C19)"]
+            "struct set is represented as an association list looked up with the comparator's equality: strcasecmp for log types and vtables, strcmp for log destinations (licensed by C19)"]
 
 
 def assumptions(prop):
